@@ -21,12 +21,12 @@ var metas = map[string]PropMeta{
 		Assumptions: []string{"string encodings: N raw name, T pointer-escaped token, P joined tokens, K '#'+P, U URL-escaped K; signatures of jsonpointer.Escape/Unescape, path.Join/Base/Dir, url.PathUnescape, Ref.String as read from their sources; names contain no '%'"},
 	},
 	"C02": {
-		Explanation: "PIPE-ORDER on Flatten (phases identified by what they reach: spec.ExpandSpec, sortref.ReverseIndex, replace.UpdateRefWithSchema) and REF-CANONICAL on every $ref written into the root document.",
+		Explanation: "PIPE-ORDER on Flatten (phases identified by what they reach: spec.ExpandSpec, sortref.ReverseIndex, replace.UpdateRefWithSchema) REF-CANONICAL on every $ref written into the root document, GUARD-EMPTYNAME in the naming loop and NAME-TOTAL on the function that collects the candidate names (never an empty list).",
 		NotDecided:  []string{"spec.ExpandSpec removing every non-schema $ref", "reaching the import and pointer fixpoints", "absence of $refs the analyzer does not see (C11)"},
 		Assumptions: []string{"the single transient non-canonical write (stripOAIGenForRef re-pointing parents to the first parent) is followed by pointer naming, as its return value requests"},
 	},
 	"C03": {
-		Explanation: "PIPE-SAVE-NAME, PIPE-WHOWRITES-DEFS, GUARD-UNIQ, GUARD-COMPLEXMOVE, GUARD-COMPLEXDEF, GUARD-REINLINE, GUARD-DOCRULES, COV-KEYGROUPS, PIPE-ORDER/inline, COV-METHODSET.",
+		Explanation: "PIPE-SAVE-NAME, PIPE-WHOWRITES-DEFS, GUARD-UNIQ, GUARD-COMPLEXMOVE, GUARD-COMPLEXDEF, GUARD-REINLINE, GUARD-DOCRULES, COV-KEYGROUPS, NAME-TOTAL, PIPE-ORDER/inline, COV-METHODSET.",
 		NotDecided:  []string{"that every position is visited (C11/C12)", "the re-iteration fixpoint after de-duplication re-inlines a complex schema"},
 		Assumptions: []string{"strings.EqualFold is the case-insensitive comparison meant by the statement"},
 	},
@@ -42,12 +42,12 @@ var metas = map[string]PropMeta{
 	},
 	"C07": {
 		Explanation: "ORD-LOOP over every unordered loop below Flatten, ORD-SINK over every use of an order-tainted slice or field, ORD-TOTAL over every comparator that sorts below Flatten.",
-		NotDecided:  []string{"three loops frozen as assumptions (see exempt obligations)", "that Less functions are total orders", "byte-identical serialisation"},
+		NotDecided:  []string{"three loops frozen as assumptions (see exempt obligations)", "transitivity of the Less functions (ORD-TOTAL decides that distinct elements are separated)", "byte-identical serialisation"},
 		Assumptions: []string{"Go map iteration order is the only source of nondeterminism (single goroutine, no time or randomness below Flatten)", "distinct iterations of a loop over a map write distinct keys when the key is the loop variable"},
 	},
 	"C09": {
-		Explanation: "NIL-DEREF, TERM-REC, TERM-VISITED/COUNTER (fixpoint loops inventoried as exempt), ERR-PROP/ERR-DROP, COV-EXPANDOPTS, PANIC-UNREACH, ENC-MUSTREF (known finding).",
-		NotDecided:  []string{"termination of importReferences and stripPointersAndOAIGen", "index and slice bounds", "panics inside go-openapi/spec, jsonpointer, swag", "which load fails at run time"},
+		Explanation: "NIL-DEREF (with lookup pairs and typed-nil identity), TERM-REC, TERM-THREAD, TERM-SELFINLINE, TERM-VISITED/COUNTER (fixpoint loops inventoried as exempt), ERR-PROP/ERR-DROP, ERR-RESOLVE-SKIPPED, COV-EXPANDOPTS, PANIC-UNREACH, PANIC-INDEX, PANIC-SLICEBOUND, PANIC-BOUNDARY (the calls into the resolvers of go-openapi/spec run under a recover that returns an error), ENC-MUSTREF (known finding).",
+		NotDecided:  []string{"termination of importReferences and stripPointersAndOAIGen", "index and slice bounds other than constant indexes into split keys and parameters used as slice bounds", "panics inside jsonpointer and swag, and inside go-openapi/spec outside the five resolver calls covered by PANIC-BOUNDARY", "which load fails at run time"},
 		Assumptions: []string{"a call does not nil-out a field of a value it receives", "documents are finite trees"},
 	},
 	"C10": {
